@@ -977,9 +977,12 @@ class DFA:
 
                 # Create transition to add
                 culled_transition.on_values = list(relevant_values | irrelevant_values)
-                # (the byte these transitions consume belongs to the chained DFA: an append among the chained actions that
-                #  finds its output full must leave it to the handler, as an append of a foreach does)
-                culled_transition.attach(*(_action_for_next_byte(x) for x in chain_actions), prepend=True)
+                if culled_transition.is_fallthrough:
+                    culled_transition.attach(*chain_actions, prepend=True)
+                else:
+                    # (the byte these transitions consume belongs to the chained DFA: an append among the chained actions that
+                    #  finds its output full must leave it to the handler, as an append of a foreach does)
+                    culled_transition.attach(*(_action_for_next_byte(x) for x in chain_actions), prepend=True)
                 culled_chained_transitions.append(culled_transition)
 
             for new_transition in culled_chained_transitions:
